@@ -37,6 +37,7 @@ var (
 	chanOps = flag.Bool("chan", false, "rewrite channel operations")
 	stmt    = flag.Bool("stmt", false, "insert statement-level scheduling points")
 	only    = flag.String("only", "", "comma separated function names")
+	sortRng = flag.String("sortrange", "", "comma separated expressions: `range <expr>` over a map becomes `range vsched.SortedMap(<expr>)` (deterministic iteration order)")
 	sels    selFlag
 )
 
@@ -337,6 +338,15 @@ func rewriteStmt(s ast.Stmt) ast.Stmt {
 	case *ast.RangeStmt:
 		t.X = rewriteExpr(t.X)
 		rewriteBlock(t.Body)
+		if *sortRng != "" {
+			var b bytes.Buffer
+			format.Node(&b, fset, t.X)
+			for _, e := range strings.Split(*sortRng, ",") {
+				if e == b.String() {
+					t.X = call(vs("SortedMap"), t.X)
+				}
+			}
+		}
 		if *chanOps && isChanRangeCandidate(t) {
 			// for v := range ch { body }  ->  for { v, ok := vsched.RecvOK(ch); if !ok { break }; body }
 			if t.Value != nil {
